@@ -98,7 +98,9 @@ pub async fn run_history(reg: &Regime, rng: &mut Rng, rep: &mut Report, build: &
         let step = match h.step(rng).await {
             Ok(s) => s,
             Err(e) => {
-                if e.contains("replica panicked") {
+                // (the producer is a real node too: its own supply audit firing on the block it just
+                // built and wound is the same observation one step earlier)
+                if e.contains("replica panicked") || (e.contains("producer panicked") && e.contains("invalid total supply")) {
                     let clause = if e.contains("invalid total supply") { "node-supply-check-aborts" } else if e.contains("overflow") { "arithmetic-overflow" } else { "panic" };
                     rep.violation(
                         &format!("C02|clause={}|regime={}|{}", clause, reg.name, e.split('[').nth(1).unwrap_or("").trim_end_matches(']')),
